@@ -64,6 +64,13 @@ int main(int argc, char** argv) {
     // STILL IN LIST / SET MODE with lg_k == lg_max_k and is presented first to the empty union (which adopts a copy of it), then
     // raw items carry the gadget across its promotion to HLL mode, then HLL-mode inputs of each type with lg_k >= lg_max_k follow
     bool adopt = !high && g.chance(35);
+    // crafted segment (segment 2 of a file and 15 % of the others): inputs 0 and 1 are deserialized from hand-written coupon-list
+    // images with coupon values 32..63; input 0 is then fed on into HLL mode, input 1 stays a list and holds a LARGER value on a
+    // slot of input 0, so that merging it into an HLL-mode gadget overwrites a register >= 32 (kxq1 -=) and the deferred rebuild
+    // sums registers >= 32 (kxq1 +=)
+    bool crafted = !high && !adopt && (seg == 2 || g.chance(15));
+    if (crafted) lgmax = (uint8_t)g.range(std::max(4L, minlgk), std::max(minlgk, std::min(maxlgk, 10L)));
+    std::vector<Coupon> craft0;
     if (adopt) { lgmax = (uint8_t)g.range(std::max(4L, minlgk), std::max(minlgk, std::min(maxlgk, 8L))); nin = std::max(nin, 4); }
     long universe = 1L << (g.chance(50) ? 14 : 22);         // small universe: inputs share many items
     std::unique_ptr<hll_sketch> in[NIN];
@@ -93,8 +100,20 @@ int main(int argc, char** argv) {
       // uniform input (lg_k <= 7): exactly one item per slot, all with the same value: every slot of the array holds v
       bool uniform = !high && !adopt && lgk <= 7 && g.chance(15);
       if (uniform) { if (g.chance(60)) t = 4; full = g.chance(50); }
+      bool crafted_in = crafted && i <= 1;
+      if (crafted_in) {
+        lgk = (uint8_t)(i == 1 || g.chance(50) ? lgmax : std::min(10L, std::max(4L, (long)lgmax + g.range(-1, 1)))); k = 1L << lgk; full = false; uniform = false;
+        std::vector<Coupon> cs = craft_coupons(g, lgk);
+        if (i == 0) craft0 = cs;
+        else if (!craft0.empty() && craft0[0].val < 63) cs.insert(cs.begin() + g.below(cs.size() + 1), Coupon{craft0[0].addr, craft0[0].val + (uint32_t)g.range(1, 63 - craft0[0].val)});
+        if (cs.size() > 7) cs.resize(7);
+        auto img = craft_list_image(lgk, t, cs);
+        in[i].reset(new hll_sketch(hll_sketch::deserialize(img.data(), img.size())));
+        Ev("Craft").i("dst", i).i("lgk", lgk).i("type", t).raw("cs", coupons_json(cs)).raw("r", proj(i, *in[i])).emit();
+      } else {
       in[i].reset(new hll_sketch(lgk, tt(t), full));
       emit_new(i, *in[i]);
+      }
       long n;
       switch ((int)g.below(10)) {
         case 0: n = 0; break;                                            // empty
@@ -106,6 +125,7 @@ int main(int argc, char** argv) {
       }
       n = std::min(n, cap);
       if (adopt && i == 0) n = lgk >= 8 ? g.range(1, 20) : g.range(1, 4);
+      if (crafted_in) n = i == 0 ? g.range(lgk >= 8 ? 3 * k / 32 + 2 : 9, 2 * k) : 0;
       if (adopt && i >= 1 && i <= 3) n = g.range(lgk >= 8 ? 3 * k / 32 + 2 : 9, 3 * k);
       if (high) n = prom ? 3 * k / 32 + g.range(200, 800) : (g.chance(10) ? 0 : g.range(20, 300));
       std::vector<Item> items;
@@ -211,8 +231,10 @@ int main(int argc, char** argv) {
             Ev e("UResult"); e.i("u", p).i("type", t).raw("r", proj(9, r)); scalars(e, u); e.emit();
           } else if (ob < 8) {
             Ev e("UEst"); e.i("u", p); est_fields(e, u); scalars(e, u); e.emit();
-          } else {
+          } else if (ob < 9) {
             Ev e("UObs"); e.i("u", p); scalars(e, u); e.emit();
+          } else {
+            if (g.chance(50)) emit_bad_arg(u, "u", p, g); else { int bi = (int)g.below(nin); emit_bad_arg(*in[bi], "id", bi, g); }
           }
         }
         if (q == order.size()) break;
@@ -274,7 +296,13 @@ int main(int argc, char** argv) {
         if (p) o += ",";
         o += x.s;
       }
-      Ev("UCompare").raw("objs", o + "]").emit();
+      // pairwise relative differences of the estimates in units of 10^-12 (DESIGN C03: unit conversion of observations)
+      double ce[3], rc[3];
+      for (int p = 0; p < 3; p++) { ce[p] = un[p]->get_composite_estimate(); rc[p] = un[p]->get_result(HLL_8).get_composite_estimate(); }
+      auto rel = [](double a, double b) -> long long { double m = std::max(std::fabs(a), std::fabs(b)); if (m == 0) return 0; double d = std::fabs(a - b) / m * 1e12; return d > 1e9 ? 1000000000LL : (long long)std::llround(d); };
+      std::string dq = "[";
+      for (int a = 0; a < 3; a++) { dq += a ? ",[" : "["; for (int b = 0; b < 3; b++) { if (b) dq += ","; dq += "[" + std::to_string(rel(ce[a], ce[b])) + "," + std::to_string(rel(rc[a], rc[b])) + "]"; } dq += "]"; }
+      Ev("UCompare").raw("objs", o + "]").raw("dq", dq + "]").emit();
     }
   }
   vt::close_out();
